@@ -319,7 +319,10 @@ impl<'h> Analysis<'h> {
                             match cookie {
                                 None => {
                                     info.data = Some(DataVerdict::Unknown);
-                                    uncertain = true;
+                                    // the table only becomes unpredictable if this segment changed it
+                                    if s.tcb_len != prev_tcb {
+                                        uncertain = true;
+                                    }
                                 }
                                 Some(c) if valid_cookies.get(&c).map(|f| *f != fk).unwrap_or(false) => {
                                     info.data = Some(DataVerdict::Collision);
